@@ -1,7 +1,7 @@
 (* A verified fast evaluator for reference game-tree values: fail-soft alpha-beta over an abstract expansion function,
    proved to return the plain negamax value when started with the infinite window.  Used to make the C19 reference
    (Spec/Minimax.v) computable on positions with large capture trees; the plain definition stays the specification. *)
-From Coq Require Import ZArith List Bool Lia.
+From Coq Require Import ZArith List Bool Lia Permutation.
 Import ListNotations.
 Local Open Scope Z_scope.
 
@@ -125,3 +125,53 @@ Proof.
   pose proof (ab_correct f x None None I) as (H1 & H2 & H3). cbn in *. symmetry. apply H2; tauto.
 Qed.
 End AB.
+
+(* ---- the plain value does not depend on the order in which children are listed ---- *)
+Section Perm.
+Variable node : Type.
+
+Lemma omax_swap (b x y : option Z) : omax (omax b x) y = omax (omax b y) x.
+Proof. destruct b, x, y; cbn; f_equal; lia. Qed.
+
+Lemma fold_omax_perm (h : node -> Z) cs1 cs2 : Permutation cs1 cs2 -> forall base,
+  fold_left (fun acc c => omax acc (Some (h c))) cs1 base = fold_left (fun acc c => omax acc (Some (h c))) cs2 base.
+Proof.
+  induction 1 as [|x l l' _ IH|x y l|l l' l'' _ IH1 _ IH2]; intros base; cbn [fold_left].
+  - reflexivity.
+  - apply IH.
+  - rewrite omax_swap. reflexivity.
+  - rewrite IH1. apply IH2.
+Qed.
+
+Lemma fold_omax_ext (h1 h2 : node -> Z) cs : (forall c, In c cs -> h1 c = h2 c) -> forall base,
+  fold_left (fun acc c => omax acc (Some (h1 c))) cs base = fold_left (fun acc c => omax acc (Some (h2 c))) cs base.
+Proof.
+  induction cs as [|c r IH]; intros H base; cbn [fold_left]; [reflexivity|].
+  rewrite (H c (or_introl eq_refl)). apply IH. intros c' Hc. apply H. right. exact Hc.
+Qed.
+
+(* folding from Some m only grows *)
+Lemma fold_omax_ge (h : node -> Z) cs : forall m, exists m', fold_left (fun acc c => omax acc (Some (h c))) cs (Some m) = Some m' /\ m' >= m.
+Proof.
+  induction cs as [|c r IH]; intros m; cbn [fold_left].
+  - exists m. split; [reflexivity|lia].
+  - cbn [omax]. destruct (IH (Z.max m (h c))) as (m' & E & G). exists m'. split; [exact E|lia].
+Qed.
+
+Definition shape_perm (s1 s2 : shape node) : Prop :=
+  match s1, s2 with
+  | Leaf _ v1, Leaf _ v2 => v1 = v2
+  | Inner _ b1 c1, Inner _ b2 c2 => b1 = b2 /\ Permutation c1 c2
+  | _, _ => False
+  end.
+
+Theorem val_perm (ex1 ex2 : node -> shape node) : (forall x, shape_perm (ex1 x) (ex2 x)) ->
+  forall f x, val node ex1 f x = val node ex2 f x.
+Proof.
+  intros H. induction f as [|f IH]; intros x; cbn [val]; [reflexivity|].
+  specialize (H x). destruct (ex1 x) as [v1|b1 c1]; destruct (ex2 x) as [v2|b2 c2]; cbn [shape_perm] in H; try contradiction.
+  - exact H.
+  - destruct H as (-> & P). f_equal. rewrite (fold_omax_perm (fun c => - val node ex1 f c) c1 c2 P).
+    apply fold_omax_ext. intros c _. rewrite IH. reflexivity.
+Qed.
+End Perm.
